@@ -136,6 +136,78 @@ def counting(atmo_obj, budget=None):
     return atmo_obj, StepBudgetExceeded
 
 
+class NoProgress(BaseException):
+    """raised by LineWatch inside the library frame that keeps running"""
+
+
+class LineWatch:
+    """Deterministic stand-in for a wall-clock watchdog.  While counting, every source line executed inside the package
+    is counted (sys.settrace, library frames only); if `limit` lines go by without `progress()` (a monotone counter, e.g.
+    the integration steps counted by `counting`) changing, NoProgress is raised inside the running library frame.
+    With `arm_after_s` the counting only *starts* once the block has run that long (a timer signal attaches the tracer to
+    the frames that are running then): the clock decides when to start looking, never the verdict."""
+
+    def __init__(self, progress, limit=2_000_000, arm_after_s=None):
+        self.progress, self.limit, self.arm_after_s = progress, limit, arm_after_s
+        self.n = 0
+        self.lines = 0
+        self.armed = False
+
+    def _tracers(self):
+        import os
+        import sys
+        prefix = os.path.dirname(os.path.abspath(pb.__file__))
+
+        def local(frame, event, arg):
+            if event == "line":
+                self.n += 1
+                if self.n > self.limit:
+                    self.lines += self.n
+                    self.n = 0
+                    now = self.progress()
+                    if now == self.last:
+                        sys.settrace(None)
+                        raise NoProgress(f"{frame.f_code.co_filename}:{frame.f_lineno} in {frame.f_code.co_name}")
+                    self.last = now
+            return local
+
+        def glob(frame, event, arg):
+            return local if frame.f_code.co_filename.startswith(prefix) else None
+        return prefix, local, glob
+
+    def _arm(self, frame=None):
+        import sys
+        prefix, local, glob = self._tracers()
+        self.last = self.progress()
+        self.armed = True
+        sys.settrace(glob)
+        while frame is not None:          # frames already running (timer case)
+            if frame.f_code.co_filename.startswith(prefix):
+                frame.f_trace = local
+            frame = frame.f_back
+
+    def __enter__(self):
+        import signal
+        import sys
+        self._sys = sys
+        self.prev = sys.gettrace()
+        if self.arm_after_s is None:
+            self._arm()
+        else:
+            self._old_handler = signal.signal(signal.SIGALRM, lambda signum, frame: self._arm(frame))
+            signal.setitimer(signal.ITIMER_REAL, self.arm_after_s)
+        return self
+
+    def __exit__(self, *exc):
+        if self.arm_after_s is not None:
+            import signal
+            signal.setitimer(signal.ITIMER_REAL, 0)
+            signal.signal(signal.SIGALRM, self._old_handler)
+        self._sys.settrace(self.prev)
+        self.lines += self.n
+        return False
+
+
 class CountingShot(pb.Shot):
     """counts how many integrations read the wind list (one read per _integrate run)"""
     _vf_reads = 0
